@@ -324,6 +324,8 @@ fn cmp_sets(_tier: &str) -> Vec<(String, CompoundStateSpace, Vec<Scn<CompoundSta
 // ------------------------------------------------------------------------------------- runner
 
 struct Ctx {
+    progress: Option<String>,
+    skip: std::collections::HashSet<usize>,
     outs: Vec<BufWriter<std::fs::File>>,
     run: usize,
     only: Option<usize>,
@@ -410,6 +412,13 @@ where
                             continue;
                         }
                     }
+                    if ctx.skip.contains(&run) {
+                        ctx.index.push(json!({"run": run, "desc": desc, "skipped": true}));
+                        continue;
+                    }
+                    if let Some(pf) = &ctx.progress {
+                        std::fs::write(pf, format!("{}", run)).ok();
+                    }
                     let params = Params { maxd, bias, radius: if kind == Kind::Prm { [6.0, 3.0, 9.0][rot % 3] * lvs } else { radius }, build_ticks: iters.min(30), seed: Some(pseed) };
                     let cl = sc.clearance.clone();
                     let mk_problem = || Problem {
@@ -486,6 +495,8 @@ fn main() {
     let args: Vec<String> = std::env::args().collect();
     let mut outp = String::from("/dev/null");
     let mut shards = 1usize;
+    let mut progress: Option<String> = None;
+    let mut skip: std::collections::HashSet<usize> = Default::default();
     let mut seed = 1u64;
     let mut tier = String::from("quick");
     let mut only = None;
@@ -499,6 +510,14 @@ fn main() {
             }
             "--shards" => {
                 shards = args[i + 1].parse().unwrap();
+                i += 1
+            }
+            "--progress" => {
+                progress = Some(args[i + 1].clone());
+                i += 1
+            }
+            "--skip" => {
+                skip = args[i + 1].split(',').filter(|x| !x.is_empty()).map(|x| x.parse().unwrap()).collect();
                 i += 1
             }
             "--seed" => {
@@ -525,7 +544,7 @@ fn main() {
             BufWriter::new(std::fs::File::create(name).unwrap())
         })
         .collect();
-    let mut ctx = Ctx { outs, run: 0, only, list, seed, tier: tier.clone(), nevents: 0, nruns: 0, index: vec![] };
+    let mut ctx = Ctx { progress, skip, outs, run: 0, only, list, seed, tier: tier.clone(), nevents: 0, nruns: 0, index: vec![] };
     exec_sets(&mut ctx, rv_sets(&tier));
     exec_sets(&mut ctx, so2_sets(&tier));
     exec_sets(&mut ctx, so3_sets(&tier));
